@@ -32,6 +32,11 @@ crop_hw (centered-instance) / wandb run_id (tracking on); ``best.ckpt`` (and ``l
 ``save_last=True``) exist iff ``save_ckpt``; ``train_chunks``/``val_chunks`` are gone iff
 deletion was requested; the configuration embedded in every checkpoint has a blank key.
 
+Key form (joint axis of every part): "literal" = the key is a string in the configuration; "env" = the
+configuration holds the reference ``${oc.env:C19_TRACKING_KEY}`` (plain: in the YAML; structured: set with
+``OmegaConf.update``) and the real key lives in that environment variable only while the trainer runs.  The
+scans always look for the REAL key; the saved configs must hold a blank key for both forms.
+
 Parts `chunk-reuse` / `chunk-reuse-sampled` - histories of 2-3 runs over ONE directory tree: run 1 trains with
 ``torch_dataset_np_chunks`` and keeps its chunks (``delete_chunks_after_training=False``, ``np_chunks_path``
 None or a separate directory); run 2 trains with ``use_existing_chunks=True`` on those chunks with deletion
@@ -66,7 +71,8 @@ RULE = (
     "case = one training configuration drawn jointly from model type {single_instance, centroid, "
     "centered_instance, bottomup} x (data_pipeline_fw, delete_chunks_after_training, np_chunks_path) "
     "{6 variants} x use_wandb x save_ckpt x config object {structured (builders + "
-    "TrainingJobConfig.to_sleap_nn_cfg), plain (YAML round trip)} + a 40-hex-char API key + kill points; "
+    "TrainingJobConfig.to_sleap_nn_cfg), plain (YAML round trip)} x key form {literal, ${oc.env:...} reference with "
+    "the real key in the environment during the run} + a 40-hex-char API key + kill points; "
     "each case runs the real ModelTrainer once with a crash snapshot (key search over all files below the "
     "output directories) at EVERY file-write boundary, then once per kill point with an exception injected "
     "at that boundary; thorough tier enumerates all 192 configurations x all boundaries x 2 kill flavours; "
@@ -94,6 +100,10 @@ ASSUMPTIONS = [
     "trainer_accelerator='cpu', num_workers=0, batch_size=1, max_epochs=1, steps_per_epoch=1",
     "the file may contain extra keys with value None that the supplied plain config lacks (schema defaults "
     "merged in by verify_training_cfg); all supplied keys must be present with equal values",
+    "key_form=env: the environment variable is set immediately before ModelTrainer(cfg) and restored when train() "
+    "returns or raises; configurations are compared unresolved, the expected saved api_key is blank for both key "
+    "forms (a kept reference is reported in its own bucket api_key-not-blank:reference-kept, apart from the "
+    "no-real-key clause)",
     "kill runs judge only the key clause (a dying process has no artifact contract)",
     "chunk-reuse histories: a re-using run never opens the labels file, so skeletons / max_height,max_width / "
     "crop_hw of its final config are recorded as class labels (reuse:final-config-without-*) and not judged; in a "
@@ -379,6 +389,8 @@ HEADS = {
 }
 MIN_CROP = 30  # not a multiple of max_stride=8 -> crop size really is computed from the instances
 MAX_STRIDE = 8
+KEY_ENV = "C19_TRACKING_KEY"  # environment variable holding the real key for key_form="env" (set only inside a run)
+KEY_REF = "${oc.env:" + KEY_ENV + "}"
 EXPLICIT_CROP = 96  # chunk-reuse histories of class "explicit": user-given crop_hw / part_names / edges
 
 
@@ -449,10 +461,14 @@ def build_config(case, out, chunks, indir):
         save_ckpt_path=out,
         wandb_project="c19",
         wandb_name="c19_run",
-        wandb_api_key=case["key"],
+        wandb_api_key=None if case.get("key_form", "literal") == "env" else case["key"],
         wandb_mode="offline",
     )
     cfg = TrainingJobConfig(data_config=dc, model_config=mc, trainer_config=tc).to_sleap_nn_cfg()
+    if case.get("key_form", "literal") == "env":
+        # the key is not written into the configuration: it is a reference to an environment variable
+        # (structured: OmegaConf.update on the builder-made config; plain: `api_key: ${oc.env:...}` in the YAML)
+        OmegaConf.update(cfg, KEYPATH, KEY_REF)
     if case["form"] == "plain":
         y = os.path.join(indir, "config.yaml")  # the user's own file: not an output directory
         OmegaConf.save(cfg, y)
@@ -625,7 +641,10 @@ def run_once(case, kill=None, layout=None, keys=None):
     tr = None
     try:
         cfg, labels = build_config(case, out, chunks, indir)
-        supplied = _norm(OmegaConf.to_container(cfg, resolve=True))
+        supplied = _norm(OmegaConf.to_container(cfg, resolve=False))  # a key reference stays a reference here
+        env_key = case.get("key_form", "literal") == "env"
+        if env_key and not OmegaConf.is_interpolation(cfg.trainer_config.wandb, "api_key"):
+            raise runner.HarnessError("key_form=env but the api_key node is not an interpolation")
         rep["labels"] = labels
 
         os.environ.update(
@@ -668,7 +687,14 @@ def run_once(case, kill=None, layout=None, keys=None):
             orig_lfit = _LTrainer.fit
             _LTrainer.fit = lfit
             mon.active = True
+            saved_key_env = os.environ.get(KEY_ENV)
+            import logging
+
+            saved_log_disable = logging.root.manager.disable
+            logging.disable(logging.NOTSET)  # vlib.env mutes `logging`; wandb's debug.log files are written through it
             try:
+                if env_key:
+                    os.environ[KEY_ENV] = case["key"]  # the real key exists only in the environment of the run
                 tr = ModelTrainer(cfg)
                 rep["constructed"] = True
                 tr.train()
@@ -687,6 +713,11 @@ def run_once(case, kill=None, layout=None, keys=None):
                     raise
             finally:
                 mon.active = False
+                logging.disable(saved_log_disable)
+                if saved_key_env is None:
+                    os.environ.pop(KEY_ENV, None)
+                else:
+                    os.environ[KEY_ENV] = saved_key_env
                 OmegaConf.save = orig_osave
                 torch.save = orig_tsave
                 _LTrainer.fit = orig_lfit
@@ -725,9 +756,9 @@ def run_once(case, kill=None, layout=None, keys=None):
         rep["supplied"] = supplied
         for name in ("initial_config.yaml", "training_config.yaml"):
             p = os.path.join(out, name)
-            rep[name] = _norm(OmegaConf.to_container(OmegaConf.load(p), resolve=True)) if os.path.exists(p) else None
+            rep[name] = _norm(OmegaConf.to_container(OmegaConf.load(p), resolve=False)) if os.path.exists(p) else None
         if tr is not None:
-            rep["tr_config"] = _norm(OmegaConf.to_container(tr.config, resolve=True))
+            rep["tr_config"] = _norm(OmegaConf.to_container(tr.config, resolve=False))
             if getattr(tr, "model", None) is not None:
                 rep["n_params"] = int(sum(p.numel() for p in tr.model.parameters()))
         ckpts = {}
@@ -742,7 +773,7 @@ def run_once(case, kill=None, layout=None, keys=None):
                 conf = ck.get("config") if isinstance(ck, dict) else None
                 info = {"has_config": conf is not None, "deep_key": any(_walk_has_key(ck, k) for k in keys)}
                 if conf is not None:
-                    c = _norm(OmegaConf.to_container(conf, resolve=True)) if not isinstance(conf, dict) else _norm(conf)
+                    c = _norm(OmegaConf.to_container(conf, resolve=False)) if not isinstance(conf, dict) else _norm(conf)
                     info["api_key"] = _get(c, KEYPATH, "<absent>")
                     info["skeleton_nodes"] = _skeleton_nodes(c)
                 if info["deep_key"] and rel not in mon.hits:
@@ -788,6 +819,8 @@ def run_once(case, kill=None, layout=None, keys=None):
 
             _LT.fit = orig_lfit
         tempfile.tempdir = saved_tmp
+        if case.get("key_form", "literal") == "env" and os.environ.get(KEY_ENV) == case["key"]:
+            os.environ.pop(KEY_ENV, None)
         os.chdir(saved_cwd)
         for k, v in saved_env.items():
             if v is None:
@@ -885,7 +918,11 @@ def judge_artifacts(res, case, rep, reuse=False):
         want = _norm(want)
         # the key field: blank expected; the supplied key itself is clause (1)'s business
         actual = _get(got, KEYPATH, None)
-        if actual not in ("", None) and actual != key:
+        if actual == KEY_REF:
+            # the statement wants the key *blanked* in both files (what the tree does for a literal and for a
+            # referenced key alike); a kept reference is not the key itself, hence a bucket of its own
+            res.fail(f"artifacts:{name}:api_key-not-blank:reference-kept{sfx}", f"{KEYPATH}={actual!r} in {name}; config={lab}")
+        elif actual not in ("", None) and actual != key:
             res.fail(f"artifacts:{name}:api_key-altered{sfx}", f"{KEYPATH}={actual!r} in {name}; config={lab}")
         import copy
 
@@ -963,7 +1000,9 @@ def judge_artifacts(res, case, rep, reuse=False):
         if not info["has_config"]:
             res.fail(f"artifacts:ckpt-config-missing:{fc}{sfx}", f"{rel} has no 'config' entry; config={lab}")
             continue
-        if info["api_key"] not in ("", None) and info["api_key"] != key:
+        if info["api_key"] == KEY_REF:
+            res.fail(f"artifacts:ckpt-config:api_key-not-blank:reference-kept:{fc}{sfx}", f"{rel}: embedded {KEYPATH}={info['api_key']!r}; config={lab}")
+        elif info["api_key"] not in ("", None) and info["api_key"] != key:
             res.fail(f"artifacts:ckpt-config:api_key-altered:{fc}{sfx}", f"{rel}: embedded {KEYPATH}={info['api_key']!r}; config={lab}")
         if info["api_key"] == key and rel not in rep["hits"]:
             raise runner.HarnessError(f"scanner missed the key in {rel}")
@@ -994,7 +1033,7 @@ def judge_artifacts(res, case, rep, reuse=False):
 def _label(case):
     return (
         f"{case['model']}|{case['fw']}|delete={case['delete']}|npp={case['npp']}|wandb={case['use_wandb']}"
-        f"|ckpt={case['save_ckpt']}|{case['form']}|labels={case['labels']}"
+        f"|ckpt={case['save_ckpt']}|{case['form']}|labels={case['labels']}|key={case.get('key_form', 'literal')}"
     )
 
 
@@ -1009,6 +1048,7 @@ def evaluate(case):
         f"model={case['model']}",
         f"fw={case['fw']}|delete={int(case['delete'])}|npp={case['npp']}",
         f"labels={case['labels']}",
+        f"key={case.get('key_form', 'literal')}|wandb={int(case['use_wandb'])}|{case['form']}",
     )
     facts = _labels_facts(_labels_path(case["labels"]))
     assert case["key"] not in open(_labels_path(case["labels"]), "rb").read().decode("latin-1"), "key collides with labels file"
@@ -1030,6 +1070,9 @@ def evaluate(case):
     kills = case.get("kills") or []
     if kills == "all":
         kills = [[k, fl] for k in range(nb) for fl in ("base", "kbd")]
+    elif kills in ("all-alt", "all-alt1"):
+        off = 0 if kills == "all-alt" else 1
+        kills = [[k, ("base", "kbd")[(k + off) % 2]] for k in range(nb)]
     span = rep["fit_span"]
     for kl in kills:
         k_raw, flavour = kl[0], kl[1]
@@ -1069,6 +1112,7 @@ def _history_runs(case):
     base = {
         "model": case["model"], "fw": "torch_dataset_np_chunks", "npp": case["npp"], "use_wandb": case["use_wandb"],
         "form": case["form"], "labels": case["labels"], "seed": case["seed"], "explicit": case["explicit"],
+        "key_form": case.get("key_form", "literal"),
     }
     # with a shared directory run 1 writes no checkpoint, so that run 2's best.ckpt/last.ckpt are its own
     runs = [dict(base, delete=False, use_existing=False, save_ckpt=case["save_ckpt"] and not shared, key=case["key"], out="out")]
@@ -1112,6 +1156,7 @@ def evaluate_history(case):
         f"reuse|{'explicit' if case['explicit'] else 'defaults'}|{case['model']}",
         f"reuse|wandb={int(case['use_wandb'])}|ckpt={int(case['save_ckpt'])}",
         f"reuse|keys={'same' if case['key'] == case['key2'] else 'different'}",
+        f"reuse|key={case.get('key_form', 'literal')}|wandb={int(case['use_wandb'])}",
         f"reuse|runs={len(_history_runs(case))}",
     )
     n_evals = 0
@@ -1177,9 +1222,13 @@ def evaluate_history(case):
 # generators
 
 
-def _case(cfg, key, seed, labels, kills):
+KEY_FORMS = ("literal", "env")
+
+
+def _case(cfg, key, seed, labels, kills, key_form="literal"):
     m, (fw, delete, npp), uw, ck, form = cfg
     return {
+        "key_form": key_form,
         "model": m,
         "fw": fw,
         "delete": delete,
@@ -1204,22 +1253,31 @@ def grid_cases(tier):
         # pair (use_wandb, save_ckpt) twice, both config forms four times
         td, tdf = FW_VARIANTS[0], FW_VARIANTS[1]
         nc, ncs, ncf, ncfs = FW_VARIANTS[2], FW_VARIANTS[3], FW_VARIANTS[4], FW_VARIANTS[5]
+        # key form: four literal, four env-referenced - tracking on + plain, tracking on + structured,
+        # tracking off + plain (checkpointing on), tracking off + structured
         picks = [
-            ("single_instance", td, False, True, "structured"),
-            ("single_instance", ncs, True, False, "plain"),
-            ("centroid", nc, True, True, "structured"),
-            ("centroid", tdf, False, False, "plain"),
-            ("centered_instance", ncf, False, True, "plain"),
-            ("centered_instance", ncs, True, False, "structured"),
-            ("bottomup", ncfs, True, True, "plain"),
-            ("bottomup", nc, False, False, "structured"),
+            (("single_instance", td, False, True, "structured"), "literal"),
+            (("single_instance", ncs, True, False, "plain"), "env"),
+            (("centroid", nc, True, True, "structured"), "env"),
+            (("centroid", tdf, False, False, "plain"), "literal"),
+            (("centered_instance", ncf, False, True, "plain"), "env"),
+            (("centered_instance", ncs, True, False, "structured"), "literal"),
+            (("bottomup", ncfs, True, True, "plain"), "literal"),
+            (("bottomup", nc, False, False, "structured"), "env"),
         ]
-        for cfg in picks:
+        for cfg, kf in picks:
             i = GRID.index(cfg)
-            yield _case(cfg, _det_key(i), 1000 + i, "asset", [])
+            yield _case(cfg, _det_key(i), 1000 + i, "asset", [], kf)
     else:
         for i, cfg in enumerate(GRID):
-            yield _case(cfg, _det_key(i), 1000 + i, "asset", "all")
+            yield _case(cfg, _det_key(i), 1000 + i, "asset", "all", "literal")
+        # the key as an environment reference: model x {in-memory, np_chunks in a separate dir} x use_wandb x
+        # save_ckpt x form, a kill at every boundary with alternating flavour
+        j = 0
+        for i, cfg in enumerate(GRID):
+            if cfg[1] in (FW_VARIANTS[0], FW_VARIANTS[3]):
+                yield _case(cfg, _det_key(50_000 + i), 5000 + i, "asset", "all-alt" if j % 2 else "all-alt1", "env")
+                j += 1
 
 
 def strategy():
@@ -1227,7 +1285,8 @@ def strategy():
 
     @st.composite
     def case(draw):
-        cfg = draw(st.sampled_from(GRID))  # ONE joint choice over all configuration axes
+        # ONE joint choice over all configuration axes, the key form included
+        cfg, key_form = draw(st.sampled_from([(g, kf) for g in GRID for kf in KEY_FORMS]))
         tail = draw(st.text(alphabet="0123456789abcdef", min_size=38, max_size=38))
         key = "c1" + tail  # 40 hex characters; the fixed head keeps shrunk keys from degenerating to a common string
         seed = draw(st.integers(0, 2**16))
@@ -1242,7 +1301,7 @@ def strategy():
                 max_size=2,
             )
         )
-        return _case(cfg, key, seed, labels, kills)
+        return _case(cfg, key, seed, labels, kills, key_form)
 
     return case()
 
@@ -1259,9 +1318,10 @@ HGRID = [
 ]
 
 
-def _hcase(cfg, key, key2, seed, third, kills):
+def _hcase(cfg, key, key2, seed, third, kills, key_form="literal"):
     m, npp, d2, form, uw, ck, ex = cfg
     return {
+        "key_form": key_form,
         "model": m, "npp": npp, "delete2": d2, "form": form, "use_wandb": uw, "save_ckpt": ck, "explicit": ex,
         "third": bool(third), "labels": "one" if m == "single_instance" else "asset",
         "key": key, "key2": key2, "seed": seed, "kills": kills,
@@ -1285,7 +1345,7 @@ def history_cases(tier):
         ]
         for i, (cfg, diffkeys, third) in enumerate(picks):
             k1 = _det_key(10_000 + i)
-            yield _hcase(cfg, k1, _det_key(20_000 + i) if diffkeys else k1, 2000 + i, third, [])
+            yield _hcase(cfg, k1, _det_key(20_000 + i) if diffkeys else k1, 2000 + i, third, [], "env" if i % 3 == 1 else "literal")
     else:
         # all (model x npp x delete2 x form) histories, for both classes; use_wandb / save_ckpt cycle jointly
         i = 0
@@ -1296,7 +1356,7 @@ def history_cases(tier):
                         for ex in (True, False):
                             uw, ck = [(False, True), (True, False), (True, True), (False, False)][i % 4]
                             k1 = _det_key(10_000 + i)
-                            yield _hcase((m, npp, d2, form, uw, ck, ex), k1, _det_key(20_000 + i) if i % 2 else k1, 2000 + i, not d2, "fit-all")
+                            yield _hcase((m, npp, d2, form, uw, ck, ex), k1, _det_key(20_000 + i) if i % 2 else k1, 2000 + i, not d2, "fit-all", "env" if (i // 4) % 2 else "literal")
                             i += 1
 
 
@@ -1305,7 +1365,7 @@ def history_strategy():
 
     @st.composite
     def case(draw):
-        cfg = draw(st.sampled_from(HGRID))  # ONE joint choice
+        cfg, key_form = draw(st.sampled_from([(g, kf) for g in HGRID for kf in KEY_FORMS]))  # ONE joint choice
         k1 = "c1" + draw(st.text(alphabet="0123456789abcdef", min_size=38, max_size=38))
         same = draw(st.booleans())
         k2 = k1 if same else "c2" + draw(st.text(alphabet="0123456789abcdef", min_size=38, max_size=38))
@@ -1315,7 +1375,7 @@ def history_strategy():
         kills = draw(
             st.lists(st.tuples(st.integers(0, 999), st.sampled_from(kinds)).map(lambda t: [t[0], t[1][0], t[1][1]]), min_size=0, max_size=1)
         )
-        return _hcase(cfg, k1, k2, seed, third, kills)
+        return _hcase(cfg, k1, k2, seed, third, kills, key_form)
 
     return case()
 
@@ -1339,7 +1399,7 @@ def parts(tier):
             name="sampled",
             evaluate=evaluate,
             strategy=strategy,
-            budget={"quick": 34, "thorough": 1600},
+            budget={"quick": 30, "thorough": 1600},
             shards={"quick": 1, "thorough": 16},
             min_nontrivial={"quick": 10, "thorough": 300},
             setup=_setup,
